@@ -47,22 +47,25 @@ finally:
     shutil.rmtree(wt, ignore_errors=True)
 detected = {}
 if ok:
-    st = subprocess.run(["git", "-C", "/repo", "status", "--porcelain"], capture_output=True, text=True).stdout.strip()
-    assert st == "", "repo not clean: " + st
-    subprocess.check_call(["git", "-C", "/repo", "apply", os.path.abspath(src) + "/patch.diff"])
+    # the checks analyse a scratch worktree of /repo's HEAD with the patch applied (GRIBILINT_REPO); /repo itself is not touched
+    awt = "/tmp/seedan_" + sid
+    subprocess.run(["git", "-C", "/repo", "worktree", "remove", "--force", awt], capture_output=True)
+    subprocess.check_call(["git", "-C", "/repo", "worktree", "add", "-q", "--detach", awt, "HEAD"])
     try:
+        subprocess.check_call(["git", "-C", awt, "apply", os.path.abspath(src) + "/patch.diff"])
         tmpv = "/tmp/seedev_" + sid
         os.makedirs(tmpv, exist_ok=True)
         shutil.copy("/verif/known_findings.json", tmpv)
-        e2 = dict(env, GRIBILINT_VERIF=tmpv, PATH="/opt/veriftools/go1.26.8/bin:" + env["PATH"], GOTOOLCHAIN="local", GOSUMDB="off")
+        e2 = dict(env, GRIBILINT_VERIF=tmpv, GRIBILINT_REPO=awt, PATH="/opt/veriftools/go1.26.8/bin:" + env["PATH"], GOTOOLCHAIN="local", GOSUMDB="off")
         for p in [f"C{i:02d}" for i in range(1, 20)]:
-            r = subprocess.run(["/verif/bin/gribilint", p, "quick"], env=e2, capture_output=True, text=True)
+            r = subprocess.run([os.environ.get("GRIBILINT_BIN", "/verif/bin/gribilint"), p, "quick"], env=e2, capture_output=True, text=True)
             if r.returncode != 0:
                 lines = [l for l in r.stdout.splitlines() if " VIOLATED " in l or " UNDECIDED " in l or " VANISHED " in l]
                 detected[p] = [l[:300] for l in lines[:3]] or [r.stderr[:300]]
         shutil.rmtree(tmpv, ignore_errors=True)
     finally:
-        subprocess.check_call(["git", "-C", "/repo", "checkout", "--", "."])
+        subprocess.run(["git", "-C", "/repo", "worktree", "remove", "--force", awt], capture_output=True)
+        shutil.rmtree(awt, ignore_errors=True)
     dst = f"/verif/seeded/{sid}"
     os.makedirs(dst, exist_ok=True)
     shutil.copy(os.path.join(src, "patch.diff"), dst)
